@@ -20,6 +20,7 @@ condition, `C09_grant_only_if` the property's reading.
 -/
 import Restful.Lemmas.Cors
 import Restful.Lemmas.CorsRoutable
+import Restful.Lemmas.StateShape
 namespace Restful
 namespace Props
 open Str Cors
@@ -237,6 +238,13 @@ example :
     (corsSeqPtr toLowerAscii exEnv exTbl exCc [exPre "/a" "GET" "", exPre "/b/7" "PUT" ""]).map (fun o => o.map (·.added.length)) =
       [some 3, some 0] := by
   decide
+
+/-! The frame condition (Lemmas/StateShape.lean): the code has exactly the state this property's model
+    accounts for — no further package-level variable, struct type or field; constants as modelled. -/
+-- also: Restful.StateShape.globals_shape
+-- also: Restful.StateShape.consts_shape
+-- also: Restful.StateShape.cors_shape
+-- also: Restful.StateShape.container_shape
 
 end Props
 end Restful
